@@ -4,9 +4,8 @@
 //  * ConstSingleDivisor(pub PreMulInv2by1): div_const.rs:28-31; PreMulInv2by1 stands for num_modular::PreMulInv2by1<Word> (EXTERNAL crate), seen as a
 //    `Reducer` over STORED numbers  x = residue << shift  below  m << shift:   sqr / mul return the stored product reduced
 //    (num_modular Reducer contract, ASSUMED; bounded-checked for one modulus by the Kani group int_modpow).
-//  * ReducedWord(pub Word): modular/repr.rs:36-43 (Copy);  `one(ring)` is the REAL body `Self(1 << ring.shift())`, transcribed as a
-//    contract: it is a valid element with residue 1 only for m >= 2 (for m == 1 it stores 2^63, NOT below the stored modulus:
-//    genuine defect, see the unit header).
+//  * ReducedWord(pub Word): modular/repr.rs:36-43 (Copy); `one(ring)` is VERIFIED against its real body in the unit (annotated copy
+//    annot/integer/modpow/prim1_one.rs) over the accessors `shift()` / `normalized_divisor()` stubbed below.
 
 #[verifier::external_body]
 pub struct PreMulInv2by1 { _p: u8 }
@@ -15,7 +14,8 @@ impl PreMulInv2by1 {
     pub uninterp spec fn m(&self) -> int;
     /// its normalisation shift
     pub uninterp spec fn sh(&self) -> int;
-    pub open spec fn wf(&self) -> bool { self.m() >= 1 && 0 <= self.sh() }
+    /// normalised: m << sh fits the stored type
+    pub open spec fn wf(&self) -> bool { self.m() >= 1 && 0 <= self.sh() < @BITS@ && self.m() * pow2(self.sh()) < pow2(@BITS@ as int) }
     pub open spec fn ok(&self, x: Word) -> bool {
         (x as int) % pow2(self.sh()) == 0 && (x as int) < self.m() * pow2(self.sh())
     }
@@ -44,12 +44,18 @@ pub open spec fn p_wf(ring: &ConstSingleDivisor) -> bool { ring.0.wf() }
 pub open spec fn p_ok(ring: &ConstSingleDivisor, x: ReducedWord) -> bool { ring.0.ok(x.0) }
 pub open spec fn p_res(ring: &ConstSingleDivisor, x: ReducedWord) -> int { ring.0.res(x.0) }
 
-impl ReducedWord {
-    // modular/repr.rs:111  `pub const fn one(ring) -> Self { Self(1 << ring.shift()) }`
+impl ConstSingleDivisor {
+    // div_const.rs `pub const fn shift(&self) -> u32 { self.0.shift() }`, `normalized_divisor(&self) { self.0.divisor() }`
+    // (num_modular accessors of the pre-computed divisor: TRUSTED)
     #[verifier::external_body]
-    pub fn one(ring: &ConstSingleDivisor) -> (r: Self)
-        requires p_wf(ring),
-        ensures p_m(ring) >= 2 ==> p_ok(ring, r) && p_res(ring, r) == 1,
+    pub fn shift(&self) -> (r: u32)
+        requires p_wf(self),
+        ensures r as int == self.0.sh(),
+    { unimplemented!() }
+    #[verifier::external_body]
+    pub fn normalized_divisor(&self) -> (r: Word)
+        requires p_wf(self),
+        ensures r as int == self.0.m() * pow2(self.0.sh()),
     { unimplemented!() }
 }
 
